@@ -26,7 +26,9 @@ BadAnywhere == <<
   <<99, 0, 0, 1, 5>>,            \* unknown handshake type
   <<2, 0, 0, 2, 9, 9>>,          \* ServerHello, unsupported version: Tag
   <<1, 0, 0, 2, 3, 3>>,          \* ClientHello cut off by its declared length
-  <<4, 0, 0, 3, 0, 0, 0>> >>     \* NewSessionTicket shorter than 4
+  <<4, 0, 0, 3, 0, 0, 0>>,       \* NewSessionTicket shorter than 4
+  (* 24-bit lengths whose low 16 bits alone would fit: the message reaches far beyond any record *)
+  <<14, 1, 0, 0>>, <<20, 1, 0, 2, 170, 187>>, <<24, 128, 0, 1, 0>>, <<0, 255, 0, 0>>, <<11, 2, 0, 3, 0, 0, 0>> >>
 (* malformed only as the last thing in the payload (length reaches beyond it) *)
 BadLast == << <<>>, <<14, 0, 0, 3, 1>>, <<20, 0>> >>
 
